@@ -304,9 +304,18 @@ func (p *parser) doImport() error {
 		}
 	}
 
+	// mark the imported tokens with this import statement, so that they are not
+	// taken to be on the line of a neighbouring token; on a copy, because the
+	// tokens of a snippet are shared by all of its imports
+	markedTokens := make([]Token, len(importedTokens))
+	for i, tkn := range importedTokens {
+		tkn.importID = p.importCount
+		markedTokens[i] = tkn
+	}
+
 	// splice the imported tokens in the place of the import statement
 	// and rewind cursor so Next() will land on first imported token
-	p.tokens = append(tokensBefore, append(importedTokens, tokensAfter...)...)
+	p.tokens = append(tokensBefore, append(markedTokens, tokensAfter...)...)
 	p.cursor--
 
 	return nil
